@@ -161,7 +161,15 @@ def run_episode(spec, uid="E"):
                 # str() must show the same thing
                 want = "Layered Architecture: " + "; ".join(
                     f"Layer {x['name']}: [{', '.join(mf.identifier for mf in obj[x['name']])}]" for x in layers)
-                events.append({"k": "show", "h": h, "layers": layers, "str_consistent": text == want, "str": text})
+                # ... and so must the third view of the definition, the LayerMapping that rules are evaluated with
+                try:
+                    lm = obj.layer_mapping
+                    view = [[mf.identifier for mf in lm.get_module_filters(x["name"])] for x in layers]
+                    mapping_ok = view == [[mf.identifier for mf in obj[x["name"]]] for x in layers]
+                except Exception:  # noqa: BLE001
+                    mapping_ok = False
+                events.append({"k": "show", "h": h, "layers": layers, "str_consistent": text == want, "str": text,
+                               "mapping_consistent": mapping_ok})
         do_asserts(spec.get("asserts", []))
     finally:
         if tmpdir:
